@@ -126,6 +126,7 @@ func init() {
 		"runtime.NumCPU":                  func(fr *frame, args []value) value { return 16 },
 		"os.Getenv":                       func(fr *frame, args []value) value { return "" },
 		"os.LookupEnv":                    func(fr *frame, args []value) value { return tuple{"", false} },
+		"os.NewFile":                      func(fr *frame, args []value) value { return (*value)(nil) },
 		"os.Getpid":                       func(fr *frame, args []value) value { return 4242 },
 		"os.Getpagesize":                  func(fr *frame, args []value) value { return 4096 },
 		"syscall.Getpagesize":             func(fr *frame, args []value) value { return 4096 },
